@@ -243,6 +243,13 @@ where
                             }
                         }
                         Ok(None) => {
+                            if *remaining == 0 {
+                                // The whole body, as declared by the header, has been passed to the
+                                // body decoder and it is still waiting for more: the frame is incomplete
+                                // and no later input can complete it.
+                                *state = DownlinkNotificationDecoderState::ReadingHeader;
+                                break Err(FrameIoError::BadFrame(InvalidFrame::Incomplete));
+                            }
                             break Ok(None);
                         }
                         Err(e) => {
